@@ -1,0 +1,132 @@
+//go:build verif
+
+package sizes
+
+// Contracts for package sizes (comment-only; build tag verif). Checked by
+// /verif/vcgen against the go/ssa form of this package. Syntax and semantics:
+// /verif/DESIGN.md §3-§4. sat32/sat64/umax32/umax64 are defined in
+// counts/zz_contracts_verif.go.
+
+// ---------------------------------------------------------------- PathResolver (interface contracts)
+
+//@ iface PathResolver.RequestPath
+//@   modifies fieldmem(Path.seekerCount), fieldmem(Path.parent), fieldmem(Path.relativePath), mapsof(InOrderPathResolver)
+//@   ensures result == nil || (result.OID == oid && result.objectType == objectType)
+
+//@ iface PathResolver.ForgetPath
+//@   modifies fieldmem(Path.seekerCount), fieldmem(Path.parent), fieldmem(Path.relativePath), mapsof(InOrderPathResolver)
+
+//@ iface PathResolver.RecordTreeEntry
+//@   modifies fieldmem(Path.seekerCount), fieldmem(Path.parent), fieldmem(Path.relativePath), mapsof(InOrderPathResolver)
+
+//@ iface PathResolver.RecordName
+//@   modifies fieldmem(Path.seekerCount), fieldmem(Path.parent), fieldmem(Path.relativePath), mapsof(InOrderPathResolver)
+
+//@ iface PathResolver.RecordCommit
+//@   modifies fieldmem(Path.seekerCount), fieldmem(Path.parent), fieldmem(Path.relativePath), mapsof(InOrderPathResolver)
+
+// ---------------------------------------------------------------- TreeSize accumulation (C04, C05)
+
+//@ func (*TreeSize).addDescendent
+//@   modifies s.*
+//@   ensures wide(s.MaxPathDepth) == max(wide(old(s.MaxPathDepth)), sat32(wide(s2.MaxPathDepth) + 1))
+//@   ensures s2.MaxPathLength > 0 ==> wide(s.MaxPathLength) == max(wide(old(s.MaxPathLength)), sat32(wide(len(filename)) + 1 + wide(s2.MaxPathLength)))
+//@   ensures s2.MaxPathLength == 0 ==> wide(s.MaxPathLength) == max(wide(old(s.MaxPathLength)), sat32(wide(len(filename))))
+//@   ensures wide(s.ExpandedTreeCount) == sat32(wide(old(s.ExpandedTreeCount)) + wide(s2.ExpandedTreeCount))
+//@   ensures wide(s.ExpandedBlobCount) == sat32(wide(old(s.ExpandedBlobCount)) + wide(s2.ExpandedBlobCount))
+//@   ensures wide(s.ExpandedBlobSize) == sat64(wide(old(s.ExpandedBlobSize)) + wide(s2.ExpandedBlobSize))
+//@   ensures wide(s.ExpandedLinkCount) == sat32(wide(old(s.ExpandedLinkCount)) + wide(s2.ExpandedLinkCount))
+//@   ensures wide(s.ExpandedSubmoduleCount) == sat32(wide(old(s.ExpandedSubmoduleCount)) + wide(s2.ExpandedSubmoduleCount))
+
+//@ func (*TreeSize).addBlob
+//@   modifies s.MaxPathDepth, s.MaxPathLength, s.ExpandedBlobSize, s.ExpandedBlobCount
+//@   ensures wide(s.MaxPathDepth) == max(wide(old(s.MaxPathDepth)), 1)
+//@   ensures wide(s.MaxPathLength) == max(wide(old(s.MaxPathLength)), sat32(wide(len(filename))))
+//@   ensures wide(s.ExpandedBlobSize) == sat64(wide(old(s.ExpandedBlobSize)) + wide(size.Size))
+//@   ensures wide(s.ExpandedBlobCount) == sat32(wide(old(s.ExpandedBlobCount)) + 1)
+
+//@ func (*TreeSize).addLink
+//@   modifies s.MaxPathDepth, s.MaxPathLength, s.ExpandedLinkCount
+//@   ensures wide(s.MaxPathDepth) == max(wide(old(s.MaxPathDepth)), 1)
+//@   ensures wide(s.MaxPathLength) == max(wide(old(s.MaxPathLength)), sat32(wide(len(filename))))
+//@   ensures wide(s.ExpandedLinkCount) == sat32(wide(old(s.ExpandedLinkCount)) + 1)
+
+//@ func (*TreeSize).addSubmodule
+//@   modifies s.MaxPathDepth, s.MaxPathLength, s.ExpandedSubmoduleCount
+//@   ensures wide(s.MaxPathDepth) == max(wide(old(s.MaxPathDepth)), 1)
+//@   ensures wide(s.MaxPathLength) == max(wide(old(s.MaxPathLength)), sat32(wide(len(filename))))
+//@   ensures wide(s.ExpandedSubmoduleCount) == sat32(wide(old(s.ExpandedSubmoduleCount)) + 1)
+
+//@ func (*CommitSize).addParent
+//@   modifies s.MaxAncestorDepth
+//@   ensures s.MaxAncestorDepth == umax32(old(s.MaxAncestorDepth), s2.MaxAncestorDepth)
+
+// ---------------------------------------------------------------- HistorySize accumulation (C01, C02, C04, C05, C08)
+
+//@ func setPath
+//@   modifies *path, fieldmem(Path.seekerCount), fieldmem(Path.parent), fieldmem(Path.relativePath), mapsof(InOrderPathResolver)
+//@   ensures *path == nil || ((*path).OID == oid && (*path).objectType == objectType)
+
+//@ func (*HistorySize).recordBlob
+//@   modifies s.UniqueBlobCount, s.UniqueBlobSize, s.MaxBlobSize, s.MaxBlobSizeBlob, fieldmem(Path.seekerCount), fieldmem(Path.parent), fieldmem(Path.relativePath), mapsof(InOrderPathResolver)
+//@   ensures wide(s.UniqueBlobCount) == sat32(wide(old(s.UniqueBlobCount)) + 1)
+//@   ensures wide(s.UniqueBlobSize) == sat64(wide(old(s.UniqueBlobSize)) + wide(blobSize.Size))
+//@   ensures s.MaxBlobSize == umax32(old(s.MaxBlobSize), blobSize.Size)
+//@   ensures blobSize.Size > old(s.MaxBlobSize) ==> (s.MaxBlobSizeBlob == nil || (s.MaxBlobSizeBlob.OID == oid && s.MaxBlobSizeBlob.objectType == "blob"))
+//@   ensures blobSize.Size <= old(s.MaxBlobSize) ==> s.MaxBlobSizeBlob == old(s.MaxBlobSizeBlob)
+
+//@ func (*HistorySize).recordTree
+//@   modifies s.UniqueTreeCount, s.UniqueTreeSize, s.UniqueTreeEntries, s.MaxTreeEntries, s.MaxTreeEntriesTree, s.MaxPathDepth, s.MaxPathDepthTree, s.MaxPathLength, s.MaxPathLengthTree, s.MaxExpandedTreeCount, s.MaxExpandedTreeCountTree, s.MaxExpandedBlobCount, s.MaxExpandedBlobCountTree, s.MaxExpandedBlobSize, s.MaxExpandedBlobSizeTree, s.MaxExpandedLinkCount, s.MaxExpandedLinkCountTree, s.MaxExpandedSubmoduleCount, s.MaxExpandedSubmoduleCountTree, fieldmem(Path.seekerCount), fieldmem(Path.parent), fieldmem(Path.relativePath), mapsof(InOrderPathResolver)
+//@   ensures wide(s.UniqueTreeCount) == sat32(wide(old(s.UniqueTreeCount)) + 1)
+//@   ensures wide(s.UniqueTreeSize) == sat64(wide(old(s.UniqueTreeSize)) + wide(size))
+//@   ensures wide(s.UniqueTreeEntries) == sat64(wide(old(s.UniqueTreeEntries)) + wide(treeEntries))
+//@   ensures s.MaxTreeEntries == umax32(old(s.MaxTreeEntries), treeEntries)
+//@   ensures s.MaxPathDepth == umax32(old(s.MaxPathDepth), treeSize.MaxPathDepth)
+//@   ensures s.MaxPathLength == umax32(old(s.MaxPathLength), treeSize.MaxPathLength)
+//@   ensures s.MaxExpandedTreeCount == umax32(old(s.MaxExpandedTreeCount), treeSize.ExpandedTreeCount)
+//@   ensures s.MaxExpandedBlobCount == umax32(old(s.MaxExpandedBlobCount), treeSize.ExpandedBlobCount)
+//@   ensures s.MaxExpandedBlobSize == umax64(old(s.MaxExpandedBlobSize), treeSize.ExpandedBlobSize)
+//@   ensures s.MaxExpandedLinkCount == umax32(old(s.MaxExpandedLinkCount), treeSize.ExpandedLinkCount)
+//@   ensures s.MaxExpandedSubmoduleCount == umax32(old(s.MaxExpandedSubmoduleCount), treeSize.ExpandedSubmoduleCount)
+//@   ensures treeEntries > old(s.MaxTreeEntries) ==> (s.MaxTreeEntriesTree == nil || (s.MaxTreeEntriesTree.OID == oid && s.MaxTreeEntriesTree.objectType == "tree"))
+//@   ensures treeEntries <= old(s.MaxTreeEntries) ==> s.MaxTreeEntriesTree == old(s.MaxTreeEntriesTree)
+//@   ensures treeSize.MaxPathDepth > old(s.MaxPathDepth) ==> (s.MaxPathDepthTree == nil || (s.MaxPathDepthTree.OID == oid && s.MaxPathDepthTree.objectType == "tree"))
+//@   ensures treeSize.MaxPathDepth <= old(s.MaxPathDepth) ==> s.MaxPathDepthTree == old(s.MaxPathDepthTree)
+//@   ensures treeSize.MaxPathLength > old(s.MaxPathLength) ==> (s.MaxPathLengthTree == nil || (s.MaxPathLengthTree.OID == oid && s.MaxPathLengthTree.objectType == "tree"))
+//@   ensures treeSize.MaxPathLength <= old(s.MaxPathLength) ==> s.MaxPathLengthTree == old(s.MaxPathLengthTree)
+//@   ensures treeSize.ExpandedTreeCount > old(s.MaxExpandedTreeCount) ==> (s.MaxExpandedTreeCountTree == nil || (s.MaxExpandedTreeCountTree.OID == oid && s.MaxExpandedTreeCountTree.objectType == "tree"))
+//@   ensures treeSize.ExpandedTreeCount <= old(s.MaxExpandedTreeCount) ==> s.MaxExpandedTreeCountTree == old(s.MaxExpandedTreeCountTree)
+//@   ensures treeSize.ExpandedBlobCount > old(s.MaxExpandedBlobCount) ==> (s.MaxExpandedBlobCountTree == nil || (s.MaxExpandedBlobCountTree.OID == oid && s.MaxExpandedBlobCountTree.objectType == "tree"))
+//@   ensures treeSize.ExpandedBlobCount <= old(s.MaxExpandedBlobCount) ==> s.MaxExpandedBlobCountTree == old(s.MaxExpandedBlobCountTree)
+//@   ensures treeSize.ExpandedBlobSize > old(s.MaxExpandedBlobSize) ==> (s.MaxExpandedBlobSizeTree == nil || (s.MaxExpandedBlobSizeTree.OID == oid && s.MaxExpandedBlobSizeTree.objectType == "tree"))
+//@   ensures treeSize.ExpandedBlobSize <= old(s.MaxExpandedBlobSize) ==> s.MaxExpandedBlobSizeTree == old(s.MaxExpandedBlobSizeTree)
+//@   ensures treeSize.ExpandedLinkCount > old(s.MaxExpandedLinkCount) ==> (s.MaxExpandedLinkCountTree == nil || (s.MaxExpandedLinkCountTree.OID == oid && s.MaxExpandedLinkCountTree.objectType == "tree"))
+//@   ensures treeSize.ExpandedLinkCount <= old(s.MaxExpandedLinkCount) ==> s.MaxExpandedLinkCountTree == old(s.MaxExpandedLinkCountTree)
+//@   ensures treeSize.ExpandedSubmoduleCount > old(s.MaxExpandedSubmoduleCount) ==> (s.MaxExpandedSubmoduleCountTree == nil || (s.MaxExpandedSubmoduleCountTree.OID == oid && s.MaxExpandedSubmoduleCountTree.objectType == "tree"))
+//@   ensures treeSize.ExpandedSubmoduleCount <= old(s.MaxExpandedSubmoduleCount) ==> s.MaxExpandedSubmoduleCountTree == old(s.MaxExpandedSubmoduleCountTree)
+
+//@ func (*HistorySize).recordCommit
+//@   modifies s.UniqueCommitCount, s.UniqueCommitSize, s.MaxCommitSize, s.MaxCommitSizeCommit, s.MaxHistoryDepth, s.MaxParentCount, s.MaxParentCountCommit, fieldmem(Path.seekerCount), fieldmem(Path.parent), fieldmem(Path.relativePath), mapsof(InOrderPathResolver)
+//@   ensures wide(s.UniqueCommitCount) == sat32(wide(old(s.UniqueCommitCount)) + 1)
+//@   ensures wide(s.UniqueCommitSize) == sat64(wide(old(s.UniqueCommitSize)) + wide(size))
+//@   ensures s.MaxCommitSize == umax32(old(s.MaxCommitSize), size)
+//@   ensures s.MaxHistoryDepth == umax32(old(s.MaxHistoryDepth), commitSize.MaxAncestorDepth)
+//@   ensures s.MaxParentCount == umax32(old(s.MaxParentCount), parentCount)
+//@   ensures size >= old(s.MaxCommitSize) ==> (s.MaxCommitSizeCommit == nil || (s.MaxCommitSizeCommit.OID == oid && s.MaxCommitSizeCommit.objectType == "commit"))
+//@   ensures size < old(s.MaxCommitSize) ==> s.MaxCommitSizeCommit == old(s.MaxCommitSizeCommit)
+//@   ensures parentCount >= old(s.MaxParentCount) ==> (s.MaxParentCountCommit == nil || (s.MaxParentCountCommit.OID == oid && s.MaxParentCountCommit.objectType == "commit"))
+//@   ensures parentCount < old(s.MaxParentCount) ==> s.MaxParentCountCommit == old(s.MaxParentCountCommit)
+
+//@ func (*HistorySize).recordTag
+//@   modifies s.UniqueTagCount, s.MaxTagDepth, s.MaxTagDepthTag, fieldmem(Path.seekerCount), fieldmem(Path.parent), fieldmem(Path.relativePath), mapsof(InOrderPathResolver)
+//@   ensures wide(s.UniqueTagCount) == sat32(wide(old(s.UniqueTagCount)) + 1)
+//@   ensures s.MaxTagDepth == umax32(old(s.MaxTagDepth), tagSize.TagDepth)
+//@   ensures tagSize.TagDepth > old(s.MaxTagDepth) ==> (s.MaxTagDepthTag == nil || (s.MaxTagDepthTag.OID == oid && s.MaxTagDepthTag.objectType == "tag"))
+//@   ensures tagSize.TagDepth <= old(s.MaxTagDepth) ==> s.MaxTagDepthTag == old(s.MaxTagDepthTag)
+
+//@ func (*HistorySize).recordReference
+//@   modifies s.ReferenceCount
+//@   ensures wide(s.ReferenceCount) == sat32(wide(old(s.ReferenceCount)) + 1)
+
+//@ property C04: (*TreeSize).addDescendent (*TreeSize).addBlob (*TreeSize).addLink (*TreeSize).addSubmodule (*HistorySize).recordTree
+//@ property C01: (*HistorySize).recordBlob (*HistorySize).recordTree (*HistorySize).recordCommit (*HistorySize).recordTag (*HistorySize).recordReference
